@@ -7,6 +7,7 @@ matches within a file are ordered by non-increasing score, and files are ordered
 single documented promotion of a file with a novel extension into third place.
 -/
 import ZoektModel.C29.Lemmas
+import ZoektModel.Generated.C29Consts
 namespace ZoektModel.C29
 
 /-! ### ordering -/
@@ -143,6 +144,34 @@ theorem order_function_of_scores {α} (key : α → Int) (l l' : List α) (h : l
   · exact sortedDesc_pairwise _ (sortDesc_desc key l)
   · exact sortedDesc_pairwise _ (sortDesc_desc key l')
   · exact ((sortDesc_perm key l).trans (h.trans (sortDesc_perm key l').symm)).map key
+
+/-! ### the constants of the model are the constants of the source (generated table, read on every run) -/
+
+def modelConsts : List (String × Int × Nat) := [
+  ("scorePartialWordMatch", scorePartialWordMatch.num, scorePartialWordMatch.den),
+  ("scoreWordMatch", scoreWordMatch.num, scoreWordMatch.den),
+  ("scoreBase", scoreBase.num, scoreBase.den),
+  ("scorePartialBase", scorePartialBase.num, scorePartialBase.den),
+  ("scoreSymbol", scoreSymbol.num, scoreSymbol.den),
+  ("scorePartialSymbol", scorePartialSymbol.num, scorePartialSymbol.den),
+  ("scoreKindMatch", 100, 1),   -- enters the model only through the symbol-kind scores handed in by the harness
+  ("scoreFactorAtomMatch", scoreFactorAtomMatch.num, scoreFactorAtomMatch.den),
+  ("scoreLineOrderFactor", scoreLineOrderFactor.num, scoreLineOrderFactor.den),
+  ("scoreRepoRankFactor", scoreRepoRankFactor.num, scoreRepoRankFactor.den),
+  ("scoreFileOrderFactor", scoreFileOrderFactor.num, scoreFileOrderFactor.den),
+  ("ScoreOffset", scoreOffset.num, scoreOffset.den),
+  ("importantTermBoost", importantTermBoost, 1),
+  ("lowPriorityFilePenalty", lowPriorityFilePenalty, 1),
+  ("(*contentProvider).scoreLineBM25.k", bm25k.num, bm25k.den),
+  ("(*contentProvider).scoreLineBM25.b", bm25b.num, bm25b.den),
+  ("(*indexData).scoreFileBM25.k", bm25k.num, bm25k.den),
+  ("(*indexData).scoreFileBM25.b", bm25b.num, bm25b.den),
+  ("SortFiles.boostOffset", boostOffset, 1),
+  ("SortFiles.minScoreRatio", minScoreRatioNum, minScoreRatioDen.toNat)]
+
+/-- **generated-table obligation**: the scoring constants, the BM25 parameters and the arguments of the promotion call
+    in the source are the ones the model (and therefore every theorem above) uses. -/
+theorem consts_match : Gen.c29Consts = modelConsts := by decide
 
 /-! ### non-vacuity -/
 
